@@ -1078,8 +1078,13 @@ impl<'a> Searcher<'a> {
                     ));
                 }
                 _ => {
-                    if let Ok(path) = crate::util::canonical_path(&entry.path()) {
-                        return Variant::from_string(&path);
+                    // the entry's own location: resolve the directory, not the entry (it may be a link)
+                    let path = entry.path();
+                    if let Some(parent) = path.parent() {
+                        if let Ok(dir) = crate::util::canonical_path(&parent.to_path_buf()) {
+                            let abs_path = PathBuf::from(dir).join(entry.file_name());
+                            return Variant::from_string(&abs_path.to_string_lossy().to_string());
+                        }
                     }
                 }
             },
